@@ -164,7 +164,9 @@ const LINKS: [(&str, &str); 13] = [
     ("[[1,5,2,4],[3,1,4,6],[5,3,6,2]]", "pd"), ("[[6,1,7,2],[12,8,9,7],[4,12,1,11],[5,11,6,10],[3,8,4,5],[9,3,10,2]]", "pd"), ("7_7", "name"),
 ];
 const BAD_LINKS: [&str; 6] = ["foo", "%%%", "[[1,2,3]]", "[[1,2,3,4]]", "3_1x", "[[1,2],[3,4]"];
-const CVALS: [&str; 19] = ["", "0", "1", "2", "-3", "0,1", "1,1", "2,0", "H", "0,T", "H,T", "T", "H,0", "foo", "1,", "2,3,4", "0,0,junk", "H,T,7", ",1"];
+const CVALS: [&str; 24] = ["", "0", "1", "2", "-3", "0,1", "1,1", "2,0", "H", "0,T", "H,T", "T", "H,0", "foo", "1,", "2,3,4", "0,0,junk", "H,T,7", ",1",
+    // signed entries inside a pair
+    "1,-1", "-1,1", "2,-3", "0,-1", "-2,0"];
 const CABSENT: &str = "<absent>";
 
 fn link_of(s: &str) -> Option<Link> {
@@ -230,7 +232,9 @@ fn case(ctx: &mut Ctx, rng: &mut Rng, exhaustive_idx: Option<usize>) {
         vars = vars_of(h, t);
         hs = h.clone(); ts = t.clone();
         if cmd == "kh" && (vars == Vars::HT || (ty == "Z" && vars != Vars::None)) { supported = false } // not a PID
-        if reduced && t != "0" { supported = false }
+        // reduced theory needs t = 0 IN THE COEFFICIENT RING (e.g. t = -3 is zero over F3, t = 2 is zero over F2)
+        let t_is_zero = match t.parse::<i64>() { Ok(v) => match ty { "F2" => v % 2 == 0, "F3" => v % 3 == 0, _ => v == 0 }, Err(_) => false };
+        if reduced && !t_is_zero { supported = false }
         // the link must not be empty for the reduced theory
         if reduced && link == "[]" { supported = false }
     }
